@@ -95,7 +95,7 @@ Proof.
   assert (Guard : creation_guard p A).
   { intros E. unfold creates_file in E. rewrite P4 in E. apply str_eqb_eq in E. contradiction. }
   destruct (apply_conforming o p A B O5 O6 O7 O8 p_conf A_small Guard) as (r & Er & Ro & Rf & Rr & Rs & Rp & Rm).
-  rewrite mbind_eq. unfold mlift. rewrite Er.
+  rewrite mbind_eq. unfold mlift. rewrite Er. unfold section_tail.
   destruct (apply_patch_rpatch _ _ _ _ Er) as (hs & Hp3). rewrite O7 in Hp3.
   rewrite Rf, Rm, Rs, Rp, Ro. cbn [Nat.eqb negb].
   rewrite mbind_eq. cbn [mret].
